@@ -203,9 +203,32 @@ class Shim:
         return Arr((len(out),), out, self.rec)
 
     def array(self, x):
+        """np.array copies"""
         if isinstance(x, Arr):
-            return x
+            return Arr(x.shape, list(x.flat), self.rec)
         raise Unsupported("np.array(%r)" % type(x))
+
+    def asarray(self, x, dtype=None):
+        """np.asarray: the very same object when no conversion is needed"""
+        if not isinstance(x, Arr):
+            raise Unsupported("np.asarray(%r)" % type(x))
+        if dtype is None or not x.flat:
+            return x
+        if dtype is not Shim.float64 and dtype is not float:
+            raise Unsupported("asarray dtype %r" % (dtype,))
+        if all(v.sort() == z3.RealSort() for v in x.flat):
+            return x
+        return x.astype(dtype)
+
+    def square(self, x, out=None):
+        self.rec["sq"] += x.flat
+        new = [SQ(v) for v in x.flat]
+        if out is None:
+            return Arr(x.shape, new, self.rec)
+        if not isinstance(out, Arr) or out.shape != x.shape:
+            raise Unsupported("square(out=%r)" % type(out))
+        out.flat[:] = new
+        return out
 
     def mean(self, x, axis=None):
         return x.mean(axis)
